@@ -97,14 +97,14 @@ Print Assumptions C17_empty_layers_change_nothing_at_call_sites.
 Theorem C17_layers_do_not_disturb_read_cache :
   forall (P : Type) (s0 : lstack P), base_complete P PA PR s0 ->
   forall ops privs c,
-  dels_ok P (length privs) ops = true ->
+  dels_ok P (caps P s0) (length privs) ops = true ->
   let '(st', ev, rs) :=
     hrun P {| h_stack := map (empty_layer P PA PR) privs ++ s0; h_cache := c |} ops in
-  h_cache P st' = final (gp P s0) c (erase P ops) /\
-  ev = snd (run (gp P s0) c (erase P ops)) /\
+  h_cache P st' = final (gp P s0) c (erase P (caps P s0) ops) /\
+  ev = snd (run (gp P s0) c (erase P (caps P s0) ops)) /\
   map (fun r => OutR r) rs =
     filter (fun o => match o with OutR _ => true | _ => false end)
-           (map fst (fst (run (gp P s0) c (erase P ops)))).
+           (map fst (fst (run (gp P s0) c (erase P (caps P s0) ops)))).
 Proof. exact hrun_erase. Qed.
 Print Assumptions C17_layers_do_not_disturb_read_cache.
 
@@ -113,7 +113,7 @@ Print Assumptions C17_layers_do_not_disturb_read_cache.
     [cleanup_cache] of context destruction puts exactly the held ones *)
 Theorem C17_pages_put_exactly_once :
   forall (P : Type) (s0 : lstack P) ops,
-  base_complete P PA PR s0 -> regions_ok (gp P s0) -> dels_ok P 0 ops = true ->
+  base_complete P PA PR s0 -> regions_ok (gp P s0) -> dels_ok P (caps P s0) 0 ops = true ->
   let '(st', ev, _) := hrun P {| h_stack := s0; h_cache := init_cache |} ops in
   forall f : page -> nat,
     msum f (gots ev) = (msum f (puts ev) + msum f (live (h_cache P st')))%nat /\
@@ -121,6 +121,32 @@ Theorem C17_pages_put_exactly_once :
     msum f (puts (ev ++ cleanup_events (h_cache P st'))).
 Proof. exact layers_pages_balanced. Qed.
 Print Assumptions C17_pages_put_exactly_once.
+
+(** the read capabilities are consulted for every single read, through the
+    top of the chain as it is at that moment: a read is direct or converted
+    according to the first read_caps implementation at or below the top *)
+Theorem C17_read_caps_consulted_per_read :
+  forall (P : Type) (st : hstate P) a_as a n,
+  base_complete P PA PR (h_stack P st) ->
+  hstep P st (HRead P a_as a n) =
+  match eff_as (match invoke_spec P PA PR (h_stack P st) HReadCaps (0%N, 0%N) with
+                | Some (HCaps m) => m | _ => 0%N end) a_as with
+  | None => (st, [], Some RFail)
+  | Some as' =>
+      let '(c', ev, r) := read (gp P (h_stack P st)) (h_cache P st) as' a n in
+      ({| h_stack := h_stack P st; h_cache := c' |}, ev, Some r)
+  end.
+Proof. exact read_uses_current_caps. Qed.
+Print Assumptions C17_read_caps_consulted_per_read.
+
+(** a layer that overrides read_caps is in charge while it is installed, and
+    removing it restores the previous state *)
+Theorem C17_read_caps_layer_in_charge_then_restored :
+  forall (P : Type) (st : hstate P) p m,
+  caps P (caps_layer P p m :: h_stack P st) = m /\
+  fst (fst (hstep P (fst (fst (hstep P st (HAddCaps P p m)))) (HDel P 0))) = st.
+Proof. exact (fun P st p m => conj (caps_layer_in_charge P (h_stack P st) p m) (caps_layer_add_del P st p m)). Qed.
+Print Assumptions C17_read_caps_layer_in_charge_then_restored.
 
 (** defect 3 of the pinned tree: with one pass-through layer the lower
     implementation of reg_value is handed the upper layer's private data ... *)
